@@ -105,6 +105,16 @@ CTOR = {
 }
 
 
+# documented configurations that address the channels of the image: (number of channels the image must have, kwargs)
+CHANNEL_CONFIGS = {
+    'Posterize': [(3, {'num_bits': [3, 8, 5]}), (3, {'num_bits': [[3, 4], [8, 8], [2, 6]]}), (3, {'num_bits': [1, 7, 0]})],
+}
+
+
+def channel_configurations(name):
+    return [(ch, dict(CTOR[name]['base'], **kw)) for ch, kw in CHANNEL_CONFIGS.get(name, [])]
+
+
 def configurations(name, include_default=True):
     """list of kwargs dicts: the base configuration and one per alternative value"""
     spec = CTOR[name]
